@@ -90,6 +90,60 @@ macro_rules! newtype_sweep {
     }};
 }
 
+/// Non-self-describing entry points: serde's primitive value deserializers call visit_u8,
+/// visit_u16, visit_i8 ... directly (serde_json only ever calls visit_u64 / visit_i64 / visit_f64),
+/// as compact binary formats do.
+macro_rules! primitive_deserializers {
+    ($T:ty, $name:expr, $max:expr, $rep:expr) => {{
+        use serde::de::IntoDeserializer;
+        use serde::Deserialize;
+        type E = serde::de::value::Error;
+        let rep: &mut Report = $rep;
+        macro_rules! via {
+            ($prim:ty, $vals:expr) => {
+                for v in $vals {
+                    let v: $prim = v;
+                    let r = api_probe("Deserialize for <restricted integer> (primitive deserializer)", || {
+                        let d: <$prim as IntoDeserializer<E>>::Deserializer = v.into_deserializer();
+                        <$T>::deserialize(d).ok()
+                    });
+                    rep.evaluations += 1;
+                    let in_range = (v as i128) >= 0 && (v as i128) <= $max as i128;
+                    match r {
+                        Err(m) => crate::viol!(rep, format!("C19:panic:{}", $name), format!("{}{} via {} deserializer panicked: {}", v, stringify!($prim), stringify!($prim), m), json!({"kind":"serde-primitive","type":$name,"input":format!("{}{}", v, stringify!($prim))})),
+                        Ok(Some(x)) => {
+                            if !in_range || x.get() as i128 != v as i128 {
+                                crate::viol!(
+                                    rep,
+                                    format!("C19:{}:out-of-range-accepted:primitive-deserializer", $name),
+                                    format!("{} deserialized from {}{} (visit_{}) as {:?} (max {})", $name, v, stringify!($prim), stringify!($prim), x, $max),
+                                    json!({"kind":"serde-primitive","type":$name,"input":format!("{}{}", v, stringify!($prim))})
+                                );
+                            }
+                        }
+                        Ok(None) => {
+                            // rejecting a valid value through a narrower integer visitor is allowed only
+                            // if the natural representation (u16) is accepted, which the u16 sweep checks
+                            if in_range && stringify!($prim) == "u16" {
+                                crate::viol!(rep, format!("C19:{}:valid-rejected:primitive-deserializer", $name), format!("{} rejected {}u16", $name, v), json!({"kind":"serde-primitive","type":$name,"input":format!("{}u16", v)}));
+                            }
+                        }
+                    }
+                }
+            };
+        }
+        via!(u8, 0u8..=255);
+        via!(u16, 0u16..=65535);
+        via!(i8, i8::MIN..=i8::MAX);
+        via!(i16, [i16::MIN, -1, 0, 1, 15, 16, 127, 128, 255, 256, 16383, 16384, i16::MAX]);
+        via!(u32, [0u32, 15, 16, 127, 128, 255, 256, 16383, 16384, 65535, 65536, 65536 + 5, u32::MAX]);
+        via!(i32, [i32::MIN, -1, 0, 15, 16, 127, 128, 16383, 16384, 65536 + 5, i32::MAX]);
+        via!(u64, [0u64, 15, 16, 127, 128, 16383, 16384, 65536 + 5, (1u64 << 32) + 5, u64::MAX]);
+        via!(i64, [i64::MIN, -1, 0, 15, 16, 127, 128, 16383, 16384, (1i64 << 32) + 5, i64::MAX]);
+        rep.count("primitive_deserializer_inputs", 256 + 65536 + 256 + 13 + 13 + 11 + 10 + 11);
+    }};
+}
+
 const NUM_SUBST: [i64; 14] = [0, 1, 15, 16, 31, 32, 127, 128, 255, 256, 16383, 16384, 65536, -1];
 
 /// all single-leaf mutations of a JSON value: numeric leaves get boundary values, booleans and
@@ -354,6 +408,12 @@ pub fn run(cfg: &Cfg, rep: &mut Report) {
     newtype_sweep!(Channel, "Channel", 15u32, rep);
     newtype_sweep!(KeyNumber, "KeyNumber", 127u32, rep);
     newtype_sweep!(ControllerNumber, "ControllerNumber", 127u32, rep);
+    primitive_deserializers!(U4, "U4", 15u32, rep);
+    primitive_deserializers!(U7, "U7", 127u32, rep);
+    primitive_deserializers!(U14, "U14", 16383u32, rep);
+    primitive_deserializers!(Channel, "Channel", 15u32, rep);
+    primitive_deserializers!(KeyNumber, "KeyNumber", 127u32, rep);
+    primitive_deserializers!(ControllerNumber, "ControllerNumber", 127u32, rep);
 
     // ShortMessageType (serde_repr)
     for n in (0i64..=300).chain([-1, 65535, 65536, 1 << 40]) {
